@@ -40,6 +40,7 @@ def permute_table(T, perm):
     T2["columns"] = [{"name": c["name"], "kind": c["kind"],
                       "values": [c["values"][i] for i in perm]} for c in T["columns"]]
     T2["index"] = [T["index"][i] for i in perm]
+    T2.pop("same_object", None)     # the two sides are permuted independently
     return T2
 
 
@@ -221,6 +222,11 @@ class Variants(Component):
         c4["R"] = add_columns(case["R"])
         L4, R4, _ = entries.build(c4)
         compare(entries.run(ctx, c4, L4, R4, C, n_jobs=1), "with added/reordered columns")
+        if L is R:
+            # (d') a self-join must not depend on the two arguments being one object
+            compare(entries.run(ctx, case, L, canon.build_table(case["R"]), C, n_jobs=1),
+                    "with the right table passed as a separate copy instead of the same object")
+            ctx.label("self-join")
         # (e) repetition, other processes / hash seeds
         compare(entries.run(ctx, case, L, R, C, n_jobs=1), "repeated in the same process")
         for hs in (101, 202):
